@@ -39,6 +39,11 @@ CLAIMS = {
          "Partial by nature: time itself is not modelled, only the data-flow statement the property reduces it to; micro-architectural timing and the constant-timeness of crypto/subtle.ConstantTimeCompare are Go's. The edge rules, control dependence and source/barrier classification live in tools/gen_ssa and are trusted to over-approximate explicit data flow (field/index/context-insensitive; table look-ups keyed by data are not tracked). A leak site is reported with the instruction (file:line) as replay and no-failing-input-found, since a timing difference has no single failing input.", "6 C09"),
  'C10': ("Unbounded theorems: in the model every Go operation that can panic (index, slice bound, division, negative make) has the explicit outcome Panic, and no exported operation has that outcome for any argument value: DecodeSecret, Generate/Validate HOTP/TOTP (all digits/hash/period/skew/counter/instant values, absent parameters), Generate/Validate OCRA and the derivation (all configurations and inputs), RandomSecret, the input helpers, NewRawSuite / the parser / NewSuite (all strings), the URL builders and ParseOTPAuthURL (all URLs and nil).",
          "Hangs are excluded by totality of the model plus the derivation bound of C04; the harness runs a hostile stream (every uint8 enum value, boundary integers, invalid UTF-8, 64 KiB strings, nil/empty/oversized byte fields, arbitrary suite configurations and URLs) under recover() and a per-case watchdog and compares outcome and value with the model. Stack or heap exhaustion is the Go runtime's and is not modelled. The inventory of potentially panicking SSA instructions planned in DESIGN.md is not built.", "6 C10"),
+ 'C11': ("Unbounded theorems over a small-step model of the pooled-buffer discipline (any number of library threads, adversary threads that take/overwrite/return pooled buffers, a collector emptying the pool, thread creation at any time): in every reachable state — every interleaving — a buffer is held by at most one thread and is not pooled while held, and the bytes a call reads back into its HMAC are its own arguments; "
+         "finite facts with a certificate theorem on the SSA form regenerated on every run (native and js/wasm): no pooled buffer or view of it (unsafe string conversions included) is among the results of the function that took it, every Put is deferred, nothing outside package initialisation writes memory reachable from a package-level variable.",
+         "Partial: the Go memory model and sync.Pool's happens-before edges are assumed, the real scheduler is not modelled; the step granularity (one byte store / load per step) is the model's. Behavioural tie: concurrent histories of all operation kinds on 1..64 goroutines and 1..16 processors with forced collections and a pool adversary (hook VerifPools), every answer compared with the model's pure function and retained result strings re-read at the end; the race detector runs in the thorough tier and is evidence, not proof. Sequential histories are every other stream (one process, one P).", "6 C11"),
+ 'C12': ("Finite facts with a certificate theorem on the SSA form regenerated on every run (native and js/wasm builds): no store, map update, append, copy, clear or decoder destination is an object that is a view of, or reachable through pointers from, an argument of an exported library function, and nothing outside package initialisation writes an object reachable from a package-level variable (default parameter sets, suite registry, tables); mem_ok_sound makes the verdict cover every alias path of the fact base. padBytes as a value is a prefix or the input followed by fresh zeros (C05).",
+         "The alias rules (views, pointers, memory contents as separate nodes; field- and flow-insensitive; dynamic calls by signature; code outside the analysed packages may return a view of what it was given; writes through other outside calls than the listed encoders/decoders are not seen) live in tools/gen_ssa and are trusted. Behavioural tie: every byte field presented as a sub-slice of a larger canary-filled array with every length/capacity relation around 8 and 128, parameter structs, parsed URLs, the default parameter sets and the registry compared before and after each call.", "6 C12"),
  'C13': ("Unbounded theorems: every validation model (HOTP, TOTP, OCRA) returns (true,nil) or (false,error) for all inputs; the error of a validation step does not depend on the HMAC function (hence not on the expected code); "
          "errors produced after the HMAC are the two sentinels, whose texts (regenerated from errs.go) contain no decimal digit.",
          "The secret-disclosure clause is tied by the correspondence's scan of real error strings for the secret (text and raw) and every in-window code; it is a test, not a theorem.", "6 C13"),
